@@ -569,6 +569,10 @@ def check_fault(out, model, spec, fmt, opts, kind, pos, old, stats, scratch):
             new = read(other)
             stats['saves'] += 1
         # correspondence with the order-of-effects model
+        if kind in NS_FAULTS:
+            # whether the namespace map is refused depends on the model (several roots: no prefix is registered
+            # unless an xsi:type needs one): the outcome is taken as observed, the CONTENT is what is compared
+            phase = 'ns' if exc else None
         fault = _fault_number(fmt, phase, pos, npos)
         want = model.ask('savefs', _tokens(fmt, fault, npos, old, new, opts['target'] == 'uri'))
         got = [1 if exc else 0] + _content_tokens(after)
